@@ -1,4 +1,6 @@
 import NfcVerif.Lemmas.AdvT34
+import NfcVerif.Lemmas.AdvT3
+import NfcVerif.Lemmas.AdvAct
 /-!
 # C08 - Activating and reading arbitrary tags terminates safely
 
@@ -6,18 +8,21 @@ Models: `Model/AdvT12.lean` (Type 1 / Type 2), `Model/AdvT34.lean` (Type 3 / Typ
 all of the tree WITH `fixes/C08`.  The tag is an arbitrary answer sequence (`Adv.Tag`), for Type 4 at
 APDU level an arbitrary transport `Adv.Xp σ`.
 
-Proved here:
-* `t4_read_safe` (full at APDU level): for EVERY card behaviour the Type 4 reader sends at most
-  7 + 65536 APDUs, never raises, and returns `None` or an object with `length ≤ capacity` whose
-  octets come from inside the file.
-* `t12_result_safe_partial`: whatever a Type 1 / Type 2 tag answers, an object that is returned
-  has `length ≤ capacity`, as many octets as its length and all value addresses inside the data
-  area (`[12|16, end)`).  NOT proved (time): termination of the TLV walk within the command
-  bound and absence of internal exceptions for Type 1/2/3 and `activate_safe`; those are covered
-  by the correspondence + oracle only (bounds 70 / 33000 / 3*65537 interactions per read).
-* `isodep_wtx_endless_counterexample` and the two instances below: at FRAME level the unchanged
-  ISO-DEP initiator can be kept busy for ever by the card (open findings), which is why the full
-  Type 4 theorem is stated at APDU level.
+Proved here (every theorem quantifies over EVERY tag, i.e. every answer sequence; `TagBytes` only says
+that answers consist of octets):
+* `t1_read_safe`: the Type 1 reader needs at most 1300 interactions (amortised over the cache length:
+  a tag may answer RALL with fewer than 120 octets again and again), never raises, and returns `None`
+  or an object whose octets were read from inside the data area `[12, end)`.
+* `t3_read_safe`: the Type 3 reader needs at most 6 + 3*65536 interactions, never raises, returns `None`
+  or an object with `length ≤ capacity` and octets from blocks inside the data area.
+* `t4_read_safe` (full at APDU level): at most 7 + 65536 APDUs, never raises, `None` or an object with
+  `length ≤ capacity` whose octets come from inside the file.
+* `activate_safe`: for activation data of the lengths the drivers deliver, `nfc.tag.activate` never
+  raises and needs at most 5 interactions.
+* `isodep_wtx_endless_counterexample`: at FRAME level the unchanged ISO-DEP initiator can be kept busy
+  for ever by the card (open findings), which is why the Type 4 theorem is stated at APDU level.
+Not proved: `length ≤ capacity` for Type 1/2 - FALSE on the current code (open finding
+`t12-capacity-below-stored-length`: `get_capacity` under-reports at 257 free bytes).
 -/
 namespace NfcVerif.C08
 open NfcVerif NfcVerif.Adv NfcVerif.IsoDep
@@ -34,29 +39,31 @@ theorem t4_read_safe {σ} (X : Xp σ) (hX : XOk X) (known : Option Info)
 example : XOk (⟨fun (s : Unit) _ => (s, .error (.tagCmd 0))⟩ : Xp Unit) := by
   intro s c e h; cases h; rfl
 
-/-- Type 1 / Type 2: for every memory reader behaviour (every tag) a returned object is consistent -/
-theorem t12_result_safe_partial {σ} (M : Mem σ) (t1 : Bool) (start end_ : Nat) (skip0 : Tlv.Skip) (rw : Nat)
-    (s : σ) (d : Ndef) (h : (finish M t1 start end_ skip0 rw s).1 = .ok (some d)) :
-    (d.length : Int) ≤ d.cap ∧ d.octets.length = d.length ∧ d.lo = start ∧ d.hi = end_ := by
-  unfold finish at h
-  split at h
-  · cases h
-  · cases h
-  · split at h
-    · cases h
-    · simp only at h
-      split at h
-      · cases h
-      · rename_i hcap
-        simp at h
-        subst h
-        refine ⟨?_, rfl, rfl, rfl⟩
-        have hle : ∀ (sk : Tlv.Skip) (o hd : Nat) (c : Int), roomOf t1 sk o hd end_ c ≤ c := by
-          intro sk o hd c; unfold roomOf; split <;> omega
-        rename_i fd _ _ _ v _ hdr _
-        have := hle fd.skip fd.off hdr (Tlv.capacity fd.skip fd.off end_)
-        simp only at hcap ⊢
-        omega
+/-- Type 1: every tag; bounded, never an exception, octets from inside the data area -/
+theorem t1_read_safe (t : Tag) (hT : TagBytes t) (uid : Bytes) (w : W) :
+    (readNdef1 t uid w).2.w.n ≤ w.n + 1300 ∧
+    ((readNdef1 t uid w).1 = .ok none ∨ ∃ d, (readNdef1 t uid w).1 = .ok (some d) ∧ SafeA d ∧ d.lo = 12) :=
+  readNdef1_safe hT uid w
+
+/-- non-vacuity: the tag that never answers is a tag of octets -/
+example : TagBytes (fun _ => none) := by intro n b h; cases h
+
+/-- Type 3: every tag; bounded, never an exception, `None` or a safe object -/
+theorem t3_read_safe (t : Tag) (hT : TagBytes t) (s : S3) (hI : I3 s) :
+    (readNdef3 t s).2.w.n ≤ s.w.n + 6 + 3 * 65536 ∧
+    ((readNdef3 t s).1 = .ok none ∨ ∃ d, (readNdef3 t s).1 = .ok (some d) ∧ SafeNdef d ∧ d.lo = 16) :=
+  readNdef3_safe hT s hI
+
+example : I3 { w := W.init, idm := [1, 2, 3, 4, 5, 6, 7, 8], pmm := [0, 0xF0, 255, 255, 255, 255, 255, 255], sys := 0x12FC } :=
+  ⟨rfl, rfl⟩
+
+/-- activation: well-framed activation data never make `nfc.tag.activate` raise -/
+theorem activate_safe (t : Tag) (maxSend maxRecv : Nat) (g : Target) (w : W) (hg : WellFramed g) :
+    (∃ o, (activate t maxSend maxRecv g w).1 = .ok o) ∧ (activate t maxSend maxRecv g w).2.n ≤ w.n + 5 :=
+  activate_ok t maxSend maxRecv g w hg
+
+example : WellFramed ⟨0, [0x44, 0x00], [0x00], [4, 1, 2, 3, 4, 5, 6], [], [], []⟩ := by
+  refine ⟨fun _ => ⟨rfl, rfl, by decide⟩, ⟨fun h => (by cases h), fun h => absurd rfl h⟩⟩
 
 /-- the card that answers every frame with S(WTX) -/
 def wtxTag : Tag := fun _ => some [0xF2, 0x01]
